@@ -30,7 +30,9 @@ INVARIANT AnnOwn
 INVARIANT CtxOwn
 CHECK_DEADLOCK FALSE
 """
-SETS = {"setann", "setann_inplace", "setann_raise", "batch_setann", "batch_raise", "getattr_setann", "stream_setann", "oneway_setann", "oneway_inplace"}
+SLOW = {"setann": "slow_setann", "setann_inplace": "slow_inplace", "plain": "slow_plain", "oneway_setann": "oneway_slow",
+        "oneway_inplace": "oneway_slow_inplace"}
+SETS = {"slow_setann", "slow_inplace", "oneway_slow", "oneway_slow_inplace", "setann", "setann_inplace", "setann_raise", "batch_setann", "batch_raise", "getattr_setann", "stream_setann", "oneway_setann", "oneway_inplace"}
 
 
 def akey(tok):
@@ -103,6 +105,46 @@ def make_target(lab):
             snap(tok)
             cc.response_annotations = {akey(tok): b"v"}
             return iter([1, 2, 3])
+
+        # variants that give way to other threads in the middle (concurrent pass): the context must still be their own afterwards
+        def slow_setann(self, tok):
+            snap(tok)
+            S.CUR.yield_point()
+            cc.response_annotations = {akey(tok): b"v"}
+            S.CUR.yield_point()
+            snap(tok)
+            return tok
+
+        def slow_inplace(self, tok):
+            snap(tok)
+            S.CUR.yield_point()
+            cc.response_annotations[akey(tok)] = b"v"
+            S.CUR.yield_point()
+            snap(tok)
+            return tok
+
+        def slow_plain(self, tok):
+            snap(tok)
+            S.CUR.yield_point()
+            S.CUR.yield_point()
+            snap(tok)
+            return tok
+
+        @P.oneway
+        def oslow_setann(self, tok):
+            snap(tok)
+            S.CUR.yield_point()
+            cc.response_annotations = {akey(tok): b"v"}
+            S.CUR.yield_point()
+            snap(tok)
+
+        @P.oneway
+        def oslow_inplace(self, tok):
+            snap(tok)
+            S.CUR.yield_point()
+            cc.response_annotations[akey(tok)] = b"v"
+            S.CUR.yield_point()
+            snap(tok)
     return P.expose(Target)
 
 
@@ -122,8 +164,12 @@ def request_bytes(kind, tok, seq, ser):
             s = serializers.serializers[ser]
             return bytes(protocol.SendingMessage(protocol.MSG_INVOKE, flags, seq, s.serializer_id,
                                                  s.dumpsCall("target", m, list(args), {}), annotations=ann).data)
-        if kind in ("setann", "setann_inplace", "setann_raise", "plain"):
+        if kind in ("setann", "setann_inplace", "setann_raise", "plain", "slow_setann", "slow_inplace", "slow_plain"):
             return inv(kind, [tok])
+        if kind == "oneway_slow":
+            return inv("oslow_setann", [tok], protocol.FLAGS_ONEWAY)
+        if kind == "oneway_slow_inplace":
+            return inv("oslow_inplace", [tok], protocol.FLAGS_ONEWAY)
         if kind == "raise":
             return inv("boom", [tok])
         if kind == "oneway_setann":
@@ -151,8 +197,10 @@ def tokens_of(ann):
     return sorted(int(k[1:]) for k in ann if k.startswith("A") and k[1:].isdigit())
 
 
-def run_scripts(scripts, mode, seed):
-    """mode: multiplex | thread1 (pool of one worker, one client connected at a time) | thread3"""
+def run_scripts(scripts, mode, seed, concurrent=False):
+    """mode: multiplex | thread1 (pool of one worker, one client connected at a time) | thread3
+    concurrent: consecutive requests of different clients are sent together, the methods give way to other threads in the
+    middle, and the scheduler picks the next thread at random (seeded)"""
     from Pyro5 import protocol, serializers
     traces = []
     servertype = "multiplex" if mode == "multiplex" else "thread"
@@ -196,7 +244,11 @@ def run_scripts(scripts, mode, seed):
                 sc.quiesce()
                 collect(c)
             try:
-                for step in script:
+                pending = None
+                steps = list(script)
+                if concurrent:
+                    steps = [dict(st, kind=SLOW.get(st["kind"], st["kind"])) for st in steps]
+                for si, step in enumerate(steps):
                     c, kind = step["c"], step["kind"]
                     if kind == "reconnect":
                         if c in clients:
@@ -214,8 +266,16 @@ def run_scripts(scripts, mode, seed):
                     lab.log.append({"e": "Req", "c": rc.cid, "tok": tok, "seq": seqs[c], "sets": kind in SETS, "kind": kind, "ser": ser_id,
                                     "oneway": kind.startswith("oneway"), "corr": tok if has_corr(tok) else -1})
                     rc.send(request_bytes(kind, tok, seqs[c], ser))
+                    nxt = steps[si + 1] if si + 1 < len(steps) else None
+                    if concurrent and pending is None and nxt is not None and nxt["c"] != c and nxt["kind"] != "reconnect" \
+                            and nxt["c"] in clients and not clients[nxt["c"]].server_closed():
+                        pending = c         # the next client's request goes out before this one has been answered
+                        continue
                     sc.quiesce()
                     collect(c)
+                    if pending is not None:
+                        collect(pending)
+                        pending = None
                 # one more plain request and a ping per client: nothing may ride on them
                 for c in list(clients):
                     for kind in ("plain", "ping"):
@@ -247,7 +307,10 @@ def run_scripts(scripts, mode, seed):
                 lab.daemon_annotations = {"DDDD": b"d"}
                 lab.daemon.register(make_target(lab)(), "target")
         lab.close()
-    res, sc = memnet.run(main, max_steps=20000000)
+    if concurrent:
+        res, sc = memnet.run(main, chooser=S.RandomChooser(random.Random(seed * 7919 + 12)), max_steps=40000000)
+    else:
+        res, sc = memnet.run(main, max_steps=20000000)
     if len(traces) < len(scripts):
         raise util.MachineryError("scheduler session ended early (%d of %d)" % (len(traces), len(scripts)))
     return traces
@@ -327,7 +390,9 @@ def run(ctx):
                 "plus a Proxy pass for the client-side clause; distinct_nontrivial = distinct (history, mode, serializer) in which at "
                 "least one method sets a response annotation")
     ctx.assumptions = ["annotation keys encode the request token; raw clients see every reply with all its annotations",
-                       "server threads run to quiescence between client steps (thread interleavings inside one request are not explored here)"]
+                       "in the sequential passes server threads run to quiescence between client steps; the concurrent pass overlaps the requests of "
+                       "two clients with methods that yield in the middle under a seeded random thread choice (switches at blocking "
+                       "operations and at those yields, not at every source line)"]
     tlc.mc(ctx, "Context", cfg_text=MC_CFG % ("1", 5))
     tlc.mc(ctx, "Context", cfg_text=MC_CFG % ("1, 2", ctx.pick(4, 5)))
     s1 = tlc.gen(ctx, "Gen_Ctx", cfg_text=GEN_CFG % 1)
@@ -346,6 +411,12 @@ def run(ctx):
         js = [(s, sers[(i + mi) % 4]) for i, s in enumerate(scripts) if not ctx.quick or mode != "thread3" or i % 3 == 0]
         traces += run_scripts(js, mode, ctx.seed)
         metas += [{"script": s, "ser": ser, "mode": mode} for s, ser in js]
+    # concurrent pass: overlapping requests of two clients, methods that give way in the middle, random thread choice
+    conc = [s for s in scripts if len({st["c"] for st in s}) > 1][:ctx.pick(500, 6000)]
+    for mi, mode in enumerate(("multiplex", "thread3")):
+        js = [(s, sers[(i + mi) % 4]) for i, s in enumerate(conc)]
+        traces += run_scripts(js, mode, ctx.seed, concurrent=True)
+        metas += [{"script": s, "ser": ser, "mode": mode, "concurrent": True} for s, ser in js]
     pj = [(s, sers[i % 4]) for i, s in enumerate(scripts)]
     traces += run_proxy_scripts(pj)
     metas += [{"script": s, "ser": ser, "mode": "proxy"} for s, ser in pj]
@@ -360,7 +431,7 @@ def run(ctx):
             v = v or "C12.Hang"
         if v:
             kinds = [s["kind"] for s in m["script"]]
-            ctx.violation("%s [mode=%s]" % (v, m["mode"]), {"scenario": m, "kinds": kinds, "trace": tr})
+            ctx.violation("%s [mode=%s%s]" % (v, m["mode"], " concurrent" if m.get("concurrent") else ""), {"scenario": m, "kinds": kinds, "trace": tr})
     if not ctx.violations and nann < 100:
         raise util.MachineryError("vacuity: only %d replies carried a method annotation" % nann)
     ctx.extra["replies_with_method_annotation"] = nann
@@ -375,7 +446,7 @@ def replay(ctx, path):
         if m["mode"] == "proxy":
             tr = run_proxy_scripts([(m["script"], m["ser"])])[0]
         else:
-            tr = run_scripts([(m["script"], m["ser"])], m["mode"], ctx.seed)[0]
+            tr = run_scripts([(m["script"], m["ser"])], m["mode"], ctx.seed, concurrent=m.get("concurrent", False))[0]
         v, _ = tlc.validate(ctx, "Trace_Ctx", [tr], cfg="Trace_Ctx.cfg")
         print("replay:", [(s["c"], s["kind"]) for s in m["script"]], m["mode"], "->", v[0] or "accepted")
         for e in tr:
